@@ -20,7 +20,7 @@
 EXTENDS MiniPyMon
 VARIABLES lastStk,   \* per activation of the call stack: last node executed (0 = entry/arguments node)
           resync,    \* per activation: the next node is reached by an unmodelled (exempt) transfer
-          bad        \* latched description of the first violation of this execution
+          bad        \* the first distinct violation reports of this execution (MiniPyMon!Note)
 mvars == <<vars, lastStk, resync, bad>>
 
 Edges(f)  == {<<e[1], e[2]>> : e \in Range(G(f).edges)}
@@ -43,7 +43,7 @@ StaticBad(f) ==
 StaticReport == LET fs == {f \in 1..Len(P.fns) : StaticBad(f) # ""} IN
                 IF fs = {} THEN "" ELSE LET f == CHOOSE f \in fs : TRUE IN ToString(<<"static", f, StaticBad(f)>>)
 
-MInit == Init /\ lastStk = <<0>> /\ resync = <<FALSE>> /\ bad = StaticReport
+MInit == Init /\ lastStk = <<0>> /\ resync = <<FALSE>> /\ bad = Reports0(StaticReport)
 
 MStep ==
   /\ Step
@@ -68,10 +68,10 @@ MStep ==
          upd  == [lastStk EXCEPT ![nc] = lastNow]
          rs1  == [resync EXCEPT ![nc] = IF judged THEN implicitNow ELSE (@ \/ implicitNow)]
      IN
-     /\ bad' = IF bad # "" THEN bad
-               ELSE IF edgeBad THEN ToString(<<"edge", fn, lastStk[nc], n, pend>>)
+     /\ bad' = Note(bad,
+               IF edgeBad THEN ToString(<<"edge", fn, lastStk[nc], n, pend>>)
                ELSE IF exitBad THEN ToString(<<"exit", fn, lastNow, how'>>)
-               ELSE ""
+               ELSE "")
      /\ lastStk' = IF nc2 > nc THEN Append(upd, 0) ELSE SubSeq(upd, 1, nc2)
      /\ resync'  = IF nc2 > nc THEN Append(rs1, FALSE)
                    ELSE IF nc2 < nc /\ how' = "exc" /\ nc2 > 0
